@@ -423,7 +423,9 @@ def oracle_fetch(t, f):
     else:
         if f.seqnum != (f.value & 0xFFFFFFFF):      # a 32-bit field: exact whenever the number fits
             return {**base, "kind": "seqnum-ne-number", "what": f"$Number$={f.value} served with sequence_number={f.seqnum}"}
-        tc = (f.value - t.sn) * t.sd
+        # (n - startNumber) * duration with the startNumber THE MANIFEST advertises for this Representation
+        sn_adv = t.sn if getattr(f, "adv_sn", None) is None else f.adv_sn
+        tc = (f.value - sn_adv) * t.sd
         slack = max(t.durs) // 2 + 1 + max(0, drift)
         if abs(f.tfdt - t.st - tc) > slack:
             return {**base, "kind": "number-decode-time", "what": f"tfdt={f.tfdt} vs (n-startNumber)*duration={tc}, slack {slack}"}
